@@ -2,6 +2,6 @@
 from composite import install
 TIE = "corr:pe"
 TIE_THEOREM = "Relic.Props.C01 (models Relic.Model.PE vs lib/authenticode)"
-UNPROVED = ['appx_sign_then_verify_full (model verifier accepts what the model signer wrote: needs Read∘WriteDirectory round trip; executed per op)', 'Relic.Props.C01.deb_sign_then_verify_full (text layer: checkSig accepts the canonical text of the message it was built from; proved at the archive layer: deb_sign_then_verify, plus a decided end-to-end instance)']
+UNPROVED = ['Relic.Props.C01.macho_sign_then_verify_full (end to end over scan/sign/locate; proved at patch-set level: macho_sign_then_verify_partial)', 'appx_sign_then_verify_full (model verifier accepts what the model signer wrote: needs Read∘WriteDirectory round trip; executed per op)', 'Relic.Props.C01.deb_sign_then_verify_full (text layer: checkSig accepts the canonical text of the message it was built from; proved at the archive layer: deb_sign_then_verify, plus a decided end-to-end instance)']
 IMPL_PARALLEL = 16
-install(globals(), "C01", ["pe", "e2e", "cab", "ps", "jar", "apk", "xsig", "apkv", "deb", "appx", "pgp"])
+install(globals(), "C01", ["pe", "e2e", "cab", "ps", "jar", "apk", "xsig", "apkv", "deb", "appx", "pgp", "macho"])
